@@ -18,9 +18,17 @@ ordered fields / `ℝ`):
 * `predict_proba`, `predict_inplace`  → `predictProba`, `predict`
   (`argmax` = first index of the maximum, ndarray-stats).
 
-Not modelled: the EM loop, k-means / random initial responsibilities, Cholesky
-and the triangular solve (`precisions_chol` is an input; its contract
-`L Lᵀ = Σ`, `C = L⁻ᵀ` is a hypothesis of `precision_is_inverse`).
+* the loop of `GmmValidParams::fit` → `runLoop`, `fitRuns`, `fitOutcome` (over the trace of lower
+  bounds of the chain of EM states);
+* `compute_precisions_cholesky_full` incl. the two `linfa-linalg` routines it calls
+  (`cholesky_inplace_dirty`, forward substitution of `solve_triangular_into(eye, Lower)`), operation
+  by operation → `cholRowD`, `cholRow`, `cholesky`, `solveLowerCol`, `precCholOf`;
+* the methods `e_step` / `m_step` on whole model states and the whole of `fit` from the initial state
+  → `eStepFull`, `mStepFull`, `emStepFull`, `chainFrom`, `fitFull`.
+
+Not modelled: k-means / random initial responsibilities (`GaussianMixtureModel::new`; the initial
+state is an input of `fitFull`).  That the modelled Cholesky satisfies `L Lᵀ = Σ` is a hypothesis of
+`precision_is_inverse` (validated numerically by the oracle), not a theorem.
 
 Matrices are lists of rows; sums run over `List.range n` in index order — the
 order of the Rust loops up to the blocked kernels of `matrixmultiply`
@@ -31,7 +39,7 @@ open LinfaSpec
 
 section
 variable {α : Type} [Add α] [Sub α] [Mul α] [Div α] [Neg α] [LT α] [DecidableLT α]
-  [OfNat α 0] [OfNat α 1] [NatCast α]
+  [LE α] [DecidableLE α] [OfNat α 0] [OfNat α 1] [NatCast α]
 
 /-- entry `(i, j)` of a matrix given as a list of rows (0 outside) -/
 def at2 (m : List (List α)) (i j : Nat) : α := (m.getD i []).getD j 0
@@ -212,6 +220,118 @@ def emStep (thr reg ln2pi : α) (d : Nat) (w : List α) (mu : List (List α))
 def predict (ln2pi : α) (d : Nat) (w : List α) (mu : List (List α))
     (pcs : List (List (List α))) (x : List α) : Nat :=
   argmaxFirst (predictProba ln2pi d w mu pcs x)
+
+/-! ## `compute_precisions_cholesky_full` (with the two `linfa-linalg` routines, operation by operation) -/
+
+/-- row `j` of `cholesky_inplace_dirty` up to the pivot: for `k < j`
+`s = (A[j][k] − Σ_{i<k} L[k][i]·L[j][i]) / L[k][k]`, `d += s·s`; returns the off-diagonal part of the
+row and the pivot `A[j][j] − d` (`L` = the rows `0..j` already computed) -/
+def cholRowD (A L : List (List α)) (j : Nat) : List α × α :=
+  let st := (List.range j).foldl (fun (st : List α × α) k =>
+      let s0 := sumRange k fun i => at2 L k i * st.1.getD i 0
+      let s := (at2 A j k - s0) / at2 L k k
+      (st.1 ++ [s], st.2 + s * s)) (([] : List α), (0 : α))
+  (st.1, at2 A j j - st.2)
+
+/-- `if d <= 0 { return Err(NotPositiveDefinite) }`, else the diagonal entry is `sqrt d` -/
+def cholRow (A L : List (List α)) (j : Nat) : Except String (List α) :=
+  let rd := cholRowD A L j
+  if rd.2 ≤ 0 then .error "LinalgError" else .ok (rd.1 ++ [Transc.sqrt rd.2])
+
+/-- `covariance.cholesky()`: rows `0..d` of the lower factor (entries above the diagonal are absent = 0,
+as after `triangular_inplace(Lower)`); `cholesky j A` is the first `j` rows -/
+def cholesky (d : Nat) (A : List (List α)) : Except String (List (List α)) :=
+  (List.range d).foldl (fun acc j =>
+    match acc with
+    | .error e => .error e
+    | .ok L => match cholRow A L j with
+      | .error e => .error e
+      | .ok r => .ok (L ++ [r])) (.ok [])
+
+/-- column `k` of `decomp.solve_triangular_into(eye, Lower)`: forward substitution on `b = e_k`,
+`coeff = b[i] / L[i][i]; b[i] = coeff; b[r] += (−coeff)·L[r][i]` for `r > i` -/
+def solveLowerCol (d : Nat) (L : List (List α)) (k : Nat) : List α :=
+  (List.range d).foldl (fun b i =>
+      let coeff := b.getD i 0 / at2 L i i
+      (List.range d).map fun r =>
+        if r = i then coeff else if i < r then b.getD r 0 + (-coeff) * at2 L r i else b.getD r 0)
+    ((List.range d).map fun r => if r = k then (1 : α) else 0)
+
+/-- `precisions_chol_k = sol.t()`: row `k` of the result is column `k` of `sol` -/
+def precCholOf (d : Nat) (cov : List (List α)) : Except String (List (List α)) :=
+  match cholesky d cov with
+  | .error e => .error e
+  | .ok L => .ok ((List.range d).map (solveLowerCol d L))
+
+/-- the loop over the components, `?` on the first failure -/
+def precCholAll (d : Nat) : List (List (List α)) → Except String (List (List (List α)))
+  | [] => .ok []
+  | c :: cs =>
+    match precCholOf d c with
+    | .error e => .error e
+    | .ok pc => match precCholAll d cs with
+      | .error e => .error e
+      | .ok pcs => .ok (pc :: pcs)
+
+/-! ## The methods `e_step`, `m_step` on whole model states and the whole of `fit` -/
+
+/-- the fields of `GaussianMixtureModel` the EM iteration reads and writes (`precisions` is a function
+of `pcs`: `refresh_precisions_full`) -/
+structure State (α : Type) where
+  weights : List α
+  means : List (List α)
+  covs : List (List (List α))
+  pcs : List (List (List α))
+
+/-- the method `m_step`: `estimate_gaussian_parameters` on `exp(log_resp)` (`?`), `weights = nk / n`,
+then `compute_precisions_cholesky_full` (`?`) -/
+def mStepFull (thr reg : α) (n d k : Nat) (x r : List (List α)) : Except String (State α) :=
+  match estimateParams thr reg n d k x r with
+  | .error e => .error e
+  | .ok p =>
+    match precCholAll d p.covs with
+    | .error e => .error e
+    | .ok pcs => .ok ⟨p.weights, p.means, p.covs, pcs⟩
+
+/-- `fit` on a chain of states: `step s` = lower bound of `s` and the next state, or the error.
+`chainFrom step fuel s₀` = the trace `tr` (`tr[t]` = outcome of step `t`) and the states `s₀, s₁, …`
+reached, for at most `fuel` steps, stopping at the first error. -/
+def chainFrom {σ : Type} (step : σ → Except String (α × σ)) : Nat → σ → List (Except String α) × List σ
+  | 0, s => ([], [s])
+  | fuel + 1, s =>
+    match step s with
+    | .error e => ([.error e], [s])
+    | .ok (lb, s') =>
+      let rest := chainFrom step fuel s'
+      (.ok lb :: rest.1, s :: rest.2)
+
+/-- the whole of `GmmValidParams::fit` after `GaussianMixtureModel::new`: the loop `fitOutcome` on the
+chain generated by `step` from the initial state; returns the chain index and the state `best_params`.
+`fuel` bounds the number of EM steps evaluated (`n_runs · max_n_iterations` always suffices; with less
+the answer may be `trace-exhausted`, never a different state). -/
+def fitFull {σ : Type} (step : σ → Except String (α × σ)) (tol : α) (maxIter nRuns fuel : Nat) (s0 : σ) :
+    Except String (Nat × σ) :=
+  let ch := chainFrom step fuel s0
+  match fitOutcome tol maxIter nRuns ch.1 with
+  | .error e => .error e
+  | .ok i =>
+    match ch.2[i]? with
+    | some s => .ok (i, s)
+    | none => .error "trace-exhausted"
+
+/-- the method `e_step`: `(log_prob_norm.mean(), log_resp)`; the second component is handed to `m_step`,
+which exponentiates it (here already exponentiated: `eResp`) -/
+def eStepFull (ln2pi : α) (d : Nat) (s : State α) (x : List (List α)) : α × List (List α) :=
+  let rows := x.map fun xi => logRespStable (weightedLogProb ln2pi d s.weights s.means s.pcs xi)
+  (sumS (rows.map (·.1)) / (x.length : α), rows.map fun r => r.2.map Transc.exp)
+
+/-- one iteration of the loop body of `fit`: `e_step(obs)?`, `m_step(reg, obs, log_resp)?`,
+`lower_bound = log_prob_norm` -/
+def emStepFull (thr reg ln2pi : α) (d : Nat) (x : List (List α)) (s : State α) : Except String (α × State α) :=
+  let e := eStepFull ln2pi d s x
+  match mStepFull thr reg x.length d s.weights.length x e.2 with
+  | .error err => .error err
+  | .ok s' => .ok (e.1, s')
 
 /-- gap between the largest and the second largest entry (the entry itself for a
 single component): the margin of the discrete `predict` decision -/
